@@ -158,7 +158,11 @@ fn recover(m1: &[u8], m2: &[u8]) -> Rec {
 
 fn recover_rust(m1: &[u8], m2: &[u8]) -> Rec {
     let mut out = vec![];
-    match guarded(|| rln().recover_id_secret(Cursor::new(m1.to_vec()), Cursor::new(m2.to_vec()), &mut out).map_err(|e| e.to_string())) {
+    crate::gens::set_io_style(((m1.len() + m2.len() + m1.first().copied().unwrap_or(0) as usize) % 4) as u8);
+    let mut sink = crate::gens::Sink::new();
+    let r = guarded(|| rln().recover_id_secret(crate::gens::rd(m1), crate::gens::rd(m2), &mut sink).map_err(|e| e.to_string()));
+    out = sink.data;
+    match r {
         Ok(Ok(())) => {
             if out.is_empty() {
                 Rec::Empty
